@@ -143,6 +143,12 @@ FOCI = [
     "a small module-level helper class `_RefsFile` (in `filehashstore.py`) that wraps the path of one reference file and offers `contains(ref_id)`, `add(ref_id)`, `remove(ref_id)` and `read_single()`, implemented with exactly the open modes, `fcntl.flock` calls, `seek(0)` / `writelines` / `truncate` order and line comparisons the existing code uses; `_update_refs_file`, `_is_string_in_refs_file` and `_read_small_file_content` keep their names and signatures and delegate to it.",
     "path builders: the three builders `_build_hashstore_data_object_path`, `_get_hashstore_pid_refs_path`, `_get_hashstore_cid_refs_path` (and the metadata address computed in `store_metadata` / `retrieve_metadata` / `delete_metadata` / `_put_metadata`) share one private helper that shards a hash and joins it below a given entity directory; the resulting paths, their types (str vs Path) and the hashing of pid / pid+format_id stay exactly as they are for every input.",
     "claims as a higher-order helper: add `_with_claim(self, synchronize, release, identifier, action)` that calls `synchronize(identifier)`, then `action()` inside try / finally with `release(identifier)`, and use it (with bound methods and small local functions or lambdas for `action`) in `_delete_object_only` and in the cid-claimed block of `delete_object`, keeping claim and release points, the order of operations and the exceptions exactly as they are.",
+    "`retrieve_object`, `retrieve_metadata`, `get_hex_digest`, `_find_object`: guard clauses instead of nested if/else, one private helper that computes a metadata document's relative address from (pid, format id) and is used wherever that address is computed, consistent local names; every raise keeps its class, message and condition, every existence check stays where it is.",
+    "store configuration as a value object: introduce a small frozen dataclass `StoreProperties` (store_path, store_depth, store_width, store_algorithm, store_metadata_namespace) that `_validate_properties` returns (same checks, same int coercion, same errors) and that `__init__`, `_write_properties` and `_verify_hashstore_properties` consume instead of indexing dictionaries, with what is written to and compared with hashstore.yaml unchanged for every input.",
+    "publishing and marking helpers: add `_publish(self, tmp_path, permanent_path)` that performs the `shutil.move(tmp, permanent)` and use it at every place a temp file is moved to its permanent address (object, metadata document, pid reference, cid reference), inside exactly the same try / except blocks and in the same order; nothing else changes.",
+    "logging consistency: give the module a logger `_LOGGER = logging.getLogger(__name__)` and use it in the static methods and wherever the root `logging.debug/info/warning/error(...)` functions are called directly inside `filehashstore.py` (instance methods may keep `self.fhs_logger`); messages and levels stay the same. Do not touch anything but logging calls.",
+    "`hashstore.py` (the abstract interface and `HashStoreFactory`): tidy the factory (`get_hashstore`): clearer local names, early returns, f-strings, type hints, docstring fixes - with the same module / class names accepted, the same import mechanism, the same errors for unsupported names and the same object returned.",
+    "emptiness checks: replace the repeated `os.path.getsize(path) == 0` tests on cid reference files by one private static helper `_is_empty_file(path)` that returns exactly `os.path.getsize(path) == 0` (no exception handling added) and use it at every such site; nothing else changes.",
     "`delete_metadata` and `delete_object`: reduce nesting - early returns, loop bodies extracted into private methods (e.g. `_delete_one_metadata_document(pid, path, objects_to_delete)`), keep the per-document claim / re-check / rename / release sequence and the order of `_delete_marked_files` / `delete_metadata` calls exactly.",
 ]
 
